@@ -388,6 +388,14 @@ class Builder:
                 head = HK(sel[0], weight=3, **{f'h{i}': s_ for i, s_ in enumerate(sel) if i > 0})
             return infer(entity(head, *conds)), sel
         quant = the if case.get('quant') == 'the' else an
+        if case.get('form') == 'pred':
+            # predicate form handed to the quantifier directly: quant(P(From(domain), f=v, ...))
+            c = case['cond']
+            eqs = [c] if c[0] == 'cmp' else [c[1], c[2]]
+            k = case['sel'][0][1]
+            dom = next(d for kk, d in case['doms'] if kk == k)
+            kwargs = {FIELDS[e[2][1][1]]: pyval(e[3][1], self.objs) for e in eqs}
+            return quant(P(From(self.domain_of(k, [self.objs[i] for i in dom])), **kwargs)), sel
         if case.get('form') == 'entity':
             return quant(entity(sel[0], *conds)), sel
         return quant(set_of(sel, *conds)), sel
@@ -412,7 +420,7 @@ def rows_of(q, sel, form, objs, quant=None):
     if quant == 'the':
         res = [res]
     for r in res:
-        if form == 'entity':
+        if form in ('entity', 'pred'):
             out.append(show_val(r, index_of))
         else:
             out.append(','.join(show_val(r[s], index_of) for s in sel))
